@@ -432,6 +432,11 @@ def subst(e, mapping, bykey=None):
         out["a"] = [subst(c, mapping, bykey) for c in e["a"]]
     if e.get("callee") is not None:
         out["callee"] = subst(e["callee"], mapping, bykey)
+    if out.get("k") == "Mem" and out.get("arrow") and out.get("a"):
+        b = sk(out["a"][0])
+        if b is not None and b.get("k") == "Un" and b["op"] == "&":
+            out["arrow"] = False
+            out["a"] = [b["a"][0]]
     return out
 
 
@@ -736,6 +741,11 @@ class Analysis:
             if g[0] == "call":
                 for imp in self.E.call_imps(self.f, g[1], g[1]):
                     new.add(imp)
+                for pf in self.E.call_post(self.f, g[1]):
+                    new.add(pf)
+                cp = _struct_copy(g[1])
+                if cp is not None:
+                    new.add(cp)
                 fi = FILLS.get(g[1].get("fn"))
                 if fi is not None and fi < len(g[1].get("a", ())):
                     buf = sk(g[1]["a"][fi])
@@ -761,7 +771,10 @@ class Analysis:
                             new.add(Imp(lhs, f.relop, f.c, subst_fact(f.fact, {}, {tk: lhs})))
                     for imp in self.E.call_imps(self.f, rv, lhs):
                         new.add(imp)
-                elif is_pure(rv) and lp[0][2] not in _rvars(rv) and rv.get("k") not in ("InitList", "Str"):
+                    for pf in self.E.call_post(self.f, rv):
+                        new.add(pf)
+                elif is_pure(rv) and rv.get("k") not in ("InitList", "Str") and (
+                        lp[0][2] not in _rvars(rv) or _disjoint_write(lp, lhs.get("t"), rv)):
                     new.add(Fact("==", lhs, rv))
                 elif is_pure(rv) and rv.get("k") == "Cond":
                     # x = MIN(x, E): afterwards x <= E
@@ -891,7 +904,7 @@ class Analysis:
                     else:
                         acc = collapse(acc)
                 elif len(acc) > MAXD:
-                    acc = collapse(acc)
+                    acc = self._reduce(acc)
                 if IN.get(s) != acc:
                     IN[s] = acc
                     if s not in inwork:
@@ -900,6 +913,23 @@ class Analysis:
                         work.sort(key=lambda x: idx.get(x, 1 << 30))
         self.IN = IN
         self.EDGE = EDGE
+
+    def _reduce(self, acc):
+        """Too many disjuncts: keep the distinctions the client cares about
+        (engine.focus), merge everything else."""
+        focus = self.E.focus
+        if focus is None:
+            return collapse(acc)
+        groups = {}
+        for d in acc:
+            key = frozenset(f.key for f in d if f.kind == "cmp" and focus(f))
+            groups.setdefault(key, set()).add(d)
+        out = set()
+        for g in groups.values():
+            out |= collapse(g)
+        if len(out) > 4 * MAXD:
+            return collapse(out)
+        return out
 
     # -- queries
     def before(self, bid, ei):
@@ -930,6 +960,39 @@ class Analysis:
         return not bad, bad
 
 
+def _disjoint_write(lp, lt, rv):
+    """The written path cannot change any location the right-hand side reads
+    (p->a = p->b: same root variable, different field)."""
+    if len(lp) < 2:
+        return False
+    vs, ps = set(), []
+    _mentions(rv, vs, ps)
+    return bool(ps) and not any(ir.may_overlap(lp, lt, m, mt) or ir.is_prefix(m, lp) for m, mt in ps)
+
+
+def _struct_copy(call):
+    """memcpy(&A, B, sizeof(T)) of a whole record: afterwards A == *B."""
+    if call.get("fn") != "memcpy" or len(call.get("a", ())) != 3:
+        return None
+    d, s_, n = sk(call["a"][0]), sk(call["a"][1]), cval(sk(call["a"][2]))
+    if n is None or not (d.get("k") == "Un" and d["op"] == "&"):
+        return None
+    dst = sk(d["a"][0])
+    dt = dst.get("t") or {}
+    if dt.get("k") != "record" or dt.get("size") != n:
+        return None
+    if s_.get("k") == "Un" and s_["op"] == "&":
+        src = sk(s_["a"][0])
+    else:
+        st_ = s_.get("t") or {}
+        if st_.get("k") != "ptr" or (st_.get("to") or {}).get("rec") != dt.get("rec"):
+            return None
+        src = {"k": "Un", "op": "*", "a": [s_], "t": st_.get("to")}
+    if apath(dst) is None or apath(src) is None or not is_pure(src):
+        return None
+    return Fact("==", dst, src)
+
+
 def _rvars(e):
     out = set()
     for x in walk(e):
@@ -942,9 +1005,10 @@ class Engine:
     """Caches analyses and summaries for a whole program."""
     RELS = (("==", 0), ("!=", 0), (">=", 0), ("<", 0), (">", 0), ("<=", 0), ("==", 1), ("==", -1), ("!=", -1))
 
-    def __init__(self, program, hist_roots=()):
+    def __init__(self, program, hist_roots=(), focus=None):
         self.P = program
         self.hist_roots = set(hist_roots)
+        self.focus = focus
         self._an = {}
         self._sum = {}
         self._busy = set()
@@ -1021,6 +1085,15 @@ class Engine:
         localids = {l["ref"]["id"] for l in f.locals}
         contribs = []
         for b, i, rexp, ds in self.return_states(f):
+            if relop is None:
+                for d in ds:
+                    out = set()
+                    for g in d:
+                        if g.kind != "cmp" or g.vars & (localids | written_params) or g.key[0] == g.key[2]:
+                            continue
+                        out.add(g)
+                    contribs.append(out)
+                continue
             if rexp is None:
                 continue
             rv = _val(rexp)
@@ -1067,6 +1140,30 @@ class Engine:
         for o in contribs[1:]:
             inter = inter & o
         return frozenset(inter)
+
+    def call_post(self, caller, call):
+        """Facts that hold after the call whatever it returns (they hold at
+        every return of the callee), in the caller's terms."""
+        tgt = self.P.callee(call, caller)
+        if tgt is None:
+            return []
+        s = self.summary(tgt, None, None)
+        if not s:
+            return []
+        args = call.get("a", [])
+        mapping = {}
+        pids = {p["ref"]["id"] for p in tgt.params}
+        for p, a in zip(tgt.params, args):
+            if is_pure(a):
+                mapping[p["ref"]["id"]] = sk(a)
+        out = []
+        for f in s:
+            if f.kind != "cmp" or (f.vars & pids) - set(mapping):
+                continue
+            if not (f.vars & pids) and not any(m[0][3] == "global" for m, _ in f.paths):
+                continue
+            out.append(subst_fact(f, mapping))
+        return out
 
     def call_imps(self, caller, call, term):
         """Conditional facts for one call, phrased on `term` (the call
